@@ -1,6 +1,8 @@
 use crate::debugger::address::RelocatedAddress;
 use crate::debugger::debugee::dwarf::EndianArcSlice;
-use crate::debugger::debugee::dwarf::eval::{AddressKind, ExpressionEvaluator};
+use crate::debugger::debugee::dwarf::eval::{
+    AddressKind, ExpressionEvaluator, ExternalRequirementsResolver,
+};
 use crate::debugger::debugee::{Debugee, Location};
 use crate::debugger::error::Error;
 use crate::debugger::error::Error::{
@@ -217,7 +219,12 @@ impl<'a> UnwindContext<'a> {
                         let expr = weak_error!(expr.get(&dwarf.eh_frame))?;
                         let evaluator =
                             weak_error!(lazy_evaluator.try_get_or_insert_with(evaluator_init_fn))?;
-                        let expr_result = weak_error!(evaluator.evaluate(ecx, expr))?;
+                        let expr_result = weak_error!(evaluator.evaluate_with_resolver(
+                            ExternalRequirementsResolver::new()
+                                .with_frame_registers(registers_snap.clone()),
+                            ecx,
+                            expr
+                        ))?;
                         let addr = weak_error!(
                             expr_result.into_scalar::<usize>(AddressKind::MemoryAddress)
                         )?;
@@ -227,7 +234,12 @@ impl<'a> UnwindContext<'a> {
                         let expr = weak_error!(expr.get(&dwarf.eh_frame))?;
                         let evaluator =
                             weak_error!(lazy_evaluator.try_get_or_insert_with(evaluator_init_fn))?;
-                        let expr_result = weak_error!(evaluator.evaluate(ecx, expr.clone()))?;
+                        let expr_result = weak_error!(evaluator.evaluate_with_resolver(
+                            ExternalRequirementsResolver::new()
+                                .with_frame_registers(registers_snap.clone()),
+                            ecx,
+                            expr.clone()
+                        ))?;
                         weak_error!(expr_result.into_scalar::<usize>(AddressKind::MemoryAddress))?
                             as u64
                     }
